@@ -89,6 +89,8 @@ def escapes(ctx, fq, _memo=None, _stack=()):
             typ = EXTERNAL_RAISERS[q]
             if not _caught(f, nd, typ):
                 out.append((typ, f, nd, 'call of ' + q))
+        if q in ('functools.reduce',) and len(c.args) == 2 and not c.keywords and not _caught(f, nd, 'TypeError'):
+            out.append(('TypeError', f, nd, 'call of functools.reduce(f, seq) without an initial value (raises on an empty sequence)'))
         if q == 'builtins.int' and parses_string(c) and not _caught(f, nd, 'ValueError'):
             out.append(('ValueError', f, nd, 'call of int(text, base) (raises on the empty string)'))
         if callee is not None:
